@@ -11,6 +11,7 @@ CONSTANTS
   MaxRestarts = 0
   Kinds = {"waive", "stale", "equal", "future", "neg"}
   Pols = {"leader", "none"}
+  SrcSet = {"request"}
   Vias = {"api"}
   MaxHolds = 0
   MaxSnaps = 0
